@@ -299,6 +299,101 @@ func genWorld(r *kit.Rand, mode string) genOut {
 	if mode != "empty" && r.Chance(1, 7) {
 		spec.Pending = []podSpec{{Name: "pending-0", CPUm: kit.Pick(r, []int{300, 900, 64000})}}
 	}
+	// ---- dimensions the anchored code reads (coverage audit): a second NodePool, policies, budgets, provider answers,
+	// missing labels, unknown instance types, conditions, pod-level blockers, price overlays, preference policy
+	spec.IgnorePref = r.Chance(1, 6)
+	pa := &spec.Pools[0]
+	switch r.Intn(16) {
+	case 0, 1, 5:
+		pa.Policy = "Balanced"
+		if r.Bool() && len(spec.Nodes) > 0 {
+			// a cheap node that is expensive to disrupt: its delete / replace score falls below the threshold
+			for j := range spec.Nodes[0].Pods {
+				spec.Nodes[0].Pods[j].Prio = ptr(int32(250000000))
+			}
+		}
+	case 2:
+		pa.Budget = ptr(0)
+	case 3:
+		pa.Budget = ptr(1)
+	case 4:
+		pa.Taint = true
+	case 6:
+		pa.After = "10m" // nodes are still inside consolidateAfter: the consolidation simulation must not pack onto them
+	}
+	if r.Chance(1, 3) {
+		pb := poolSpec{Name: "pool-b", CT: pa.CT, CTNot: pa.CTNot}
+		switch r.Intn(12) {
+		case 0, 8:
+			pb.Policy = "WhenEmpty"
+		case 1:
+			pb.Never = true
+		case 2:
+			pb.Static = true
+		case 3:
+			pb.ITErr = "error"
+		case 4:
+			pb.ITErr = "unevaluated"
+		case 5:
+			pb.ITErr = "empty"
+		case 6, 7:
+			pb.Policy = "Balanced"
+		}
+		switch r.Intn(5) {
+		case 0:
+			pb.Budget = ptr(0)
+		case 1:
+			pb.Budget = ptr(1)
+		}
+		spec.Pools = append(spec.Pools, pb)
+		for i := range spec.Nodes {
+			if r.Bool() {
+				spec.Nodes[i].Pool = "pool-b"
+			}
+		}
+	}
+	for i := range spec.Nodes {
+		n := &spec.Nodes[i]
+		switch {
+		case r.Chance(1, 30):
+			n.NoCT = true
+		case r.Chance(1, 30):
+			n.NoZone = true
+		case r.Chance(1, 30):
+			n.Ghost = true
+		case r.Chance(1, 25):
+			n.NotCons = true
+		}
+		for j := range n.Pods {
+			p := &n.Pods[j]
+			switch {
+			case r.Chance(1, 40):
+				p.DND = true
+			case r.Chance(1, 40):
+				p.PDB = true
+			case r.Chance(1, 30):
+				p.DS = true
+			case r.Chance(1, 40):
+				p.Done = true
+			}
+			p.Tol = pa.Taint && r.Bool()
+		}
+	}
+	overlays := []string{"+0.25", "-0.125", "+50%", "-50%", "-100%", "2.5", "-1000", "+0%"}
+	for i := range spec.Catalog {
+		if len(spec.Catalog[i].Name) > 0 && spec.Catalog[i].Name[0] != 't' {
+			continue // the candidates' own offerings keep their price (the anchors of the boundary prices)
+		}
+		for j := range spec.Catalog[i].Offs {
+			if r.Chance(1, 12) {
+				o := &spec.Catalog[i].Offs[j]
+				o.Overlay = kit.Pick(r, overlays)
+				o.Price &^= 1 // a percentage of an even number of 2^-10 units is still a multiple of 2^-10
+			} else if r.Chance(1, 15) {
+				spec.Catalog[i].Offs[j].CPUOver = kit.Pick(r, []int{1, 2, 32})
+			}
+		}
+	}
 	// selectors that narrow the replacement's requirements, or pin a pod to its node
 	for i := range spec.Nodes {
 		for j := range spec.Nodes[i].Pods {
